@@ -443,3 +443,20 @@ def i9(ctx):
 
 
 RULES.append(i9)
+
+
+@rule("MC", doc="must-call census: no function of this property's files has gained an early exit in front of work it always did (every crate-local call that lay on all paths to a normal return in the reviewed tree still does)")
+def mc(ctx):
+    C.must_call_census(ctx, ctx.lib(), ['src/egraph/add.rs', 'src/egraph/mod.rs', 'src/lang.rs'])
+
+
+RULES.append(mc)
+
+
+@rule("I10", doc="a queued request for full re-processing is never downgraded: PendingType::merge is the join with Full on top (C02.P4) — otherwise a known node keeps a stale hashcons key and insertion creates a duplicate class")
+def i10(ctx):
+    from . import c02
+    c02.p4(ctx)
+
+
+RULES.append(i10)
